@@ -445,6 +445,10 @@ impl Prop for ConnProp {
             if (self.id == "C08" || self.id == "C07") && r.chance(1, 8) {
                 let (a, b) = (1u64, 2u64);
                 let t1 = 1_200 + r.below(600);
+                // the two connections must still be there when the peer stalls
+                if knobs["keep_alive_ms"].as_u64().unwrap_or(5000) < 5000 {
+                    knobs["keep_alive_ms"] = json!(5000);
+                }
                 let shape = if knobs["ws_nodes"].is_array() && r.chance(1, 2) { "good_ws" } else { "good" };
                 ops.push(json!({"at_ms": 20, "op": "dial_addr", "node": a, "to": b, "shape": "good"}));
                 ops.push(json!({"at_ms": 20 + r.below(3), "op": "dial_addr", "node": b, "to": a, "shape": shape}));
@@ -454,10 +458,10 @@ impl Prop for ConnProp {
                     ops.push(json!({"at_ms": t1 + 30 + k, "op": "open", "node": a, "proto": r.below(2), "to": b, "hold_ms": 0}));
                 }
                 let t2 = t1 + 60 + r.below(300);
-                faults.push(json!({"at_ms": t2, "kind": "reset", "k": r.below(2)}));
+                faults.push(json!({"at_ms": t2, "kind": "reset_pair", "a": a, "b": b, "k": r.below(2)}));
                 match r.below(3) {
-                    0 => faults.push(json!({"at_ms": t2 + r.below(3), "kind": "reset", "k": 0})),
-                    1 => faults.push(json!({"at_ms": t2 + 100 + r.below(2_000), "kind": "reset", "k": 0})),
+                    0 => faults.push(json!({"at_ms": t2 + r.below(3), "kind": "reset_pair", "a": a, "b": b, "k": 0})),
+                    1 => faults.push(json!({"at_ms": t2 + 100 + r.below(2_000), "kind": "reset_pair", "a": a, "b": b, "k": 0})),
                     _ => {}
                 }
                 ops.sort_by_key(|o| o["at_ms"].as_u64().unwrap_or(0));
